@@ -197,6 +197,13 @@ def main():
                             elif entry == "open_url":
                                 c = open_url("http://localhost:8001/d?" + ce, application=app)
                                 got = [[norm(v) for v in rec] for rec in c[sq].iterdata()]
+                                # a column of that sequence is a column of the SAME records (range and selection included)
+                                cn = rng.choice(list(c[sq].keys()))
+                                colgot = [norm(v) for v in c[sq][cn].iterdata()]
+                                colwant = [rw[proj_cols.index(cn)] for rw in want_here]
+                                if colgot != colwant:
+                                    direct.append(dict(info, law="a column of a sequence opened with a constraint in the URL holds the "
+                                                                 "records the constraint selects", column=cn, got=colgot, want=colwant))
                             else:
                                 # ONE client dataset per (table, back end) answers all operator cases of that table: an earlier
                                 # expression must not leak into a later one
